@@ -443,7 +443,14 @@ Definition wfb (g : graph) : bool :=
                        LGraph.mem a (node_ids g) && LGraph.mem b (node_ids g) && negb (N.eqb a b)) (gedges g)
   && uniq_edges (gedges g).
 
-Definition run_aut_wf (g : graph) : tok := L [ run_aut g; tbool (wfb g) ].
+(** the enumerations themselves (one per component, as the code calls VF2), as sets of maps given as sets of items:
+    monitors the VF2 contract of C11_vf2_contract directly; only when the total count is small *)
+Definition t_maps (ms : list mapping) : tok := tset (tset (tpair tN tN)) ms.
+Definition aut_lists (g : graph) : list (list mapping) :=
+  if (a_count (analyze n_exact e_order g) <=? 200)%N
+  then map (fun c => auts n_exact e_order (induced_sub g c)) (components g)
+  else [].
+Definition run_aut_wf (g : graph) : tok := L [ run_aut g; tbool (wfb g); tlist t_maps (aut_lists g) ].
 Definition run_dedup_wf (p h : graph) (ms : list mapping) : tok := L [ run_dedup p h ms; tbool (wfb p); tbool (wfb h) ].
 (** every match is defined on nodes of the rule centre (premise of C11_prune_complete_aut) *)
 Definition dom_ok (rc : graph) (raw : list mapping) : bool :=
